@@ -13,6 +13,10 @@ func init() { register("C18", checkC18) }
 
 func checkC18(c *Ctx) {
 	r := c.R
+	r.Rule("R18.8", "every registered mapping is tried: the loops of checkpath over the prefix table and over the regexp list have their natural exit only (a break after the first match leaves a later registered prefix in the path)")
+	r.Rule("R18.9", "on by default: every constant the package stores to the flag word carries Lprivacypath, and the package's own RemoveFlags/SetFlags calls (start-up code included) never clear it")
+	r.Rule("R18.10", "list maintenance keeps the edited list: no result of append / slices.Delete / Insert / Compact ... is dropped in the package (a dropped slices.Delete leaves a zeroed regexp entry that makes every hardening call panic)")
+	r.Rule("R18.11", "search results are split at the absent/found boundary (-1 | >= 0) wherever the package tests one (path separators, volume prefixes)")
 	r.Rule("R18.1", "every reported path is hardened: every store to Source.File is the result of checkpath applied to the frame's file; Safety/SafetyFiles return only checkpath results; the raw stack dumper is unreachable from the logging entry points")
 	r.Rule("R18.2", "replacement structure: under the privacy flag the loop over the known-path table tests HasPrefix(current, k) and rewrites the CURRENT value with that same k and its v; every later rewrite step (home directory, regexp table, /Volumes) also takes the current value as its subject, never the original argument; the value returned derives from the current value, or is the shorter relative path under IsAbs(current) and a strictly-shorter test")
 	r.Rule("R18.7", "every frame's file name goes through the hardening: wherever the package reads runtime.Frame.File or the file result of (*runtime.Func).FileLine, the value is used only as the argument of checkpath (diagnostic stack dumps outside the record path excepted)")
@@ -35,6 +39,16 @@ func checkC18(c *Ctx) {
 		registrationStores(c, p, m)
 		regexpRuleList(c, p)
 		frameFilesHardened(c, p, m)
+		pathRulesTraversal(c, p, "R18.8")
+		privacyOnByDefault(c, p, "R18.9")
+		var slogFns []*ssa.Function
+		for _, fn := range p.RepoFuncs() {
+			if fn.Pkg == p.Slog {
+				slogFns = append(slogFns, fn)
+			}
+		}
+		sliceResultsUsed(c, p, slogFns, "R18.10")
+		indexFoundTests(c, p, slogFns, "R18.11")
 	}
 	c.Floor["R18.1"] = 4
 	c.Floor["R18.2"] = 4
